@@ -239,6 +239,17 @@ def unfold_branch_spec(E, h, k):
     E.assume(mk_bool(z3.Implies(brok(h, k), bbr(h, k) == seq)))
 
 
+allin = z3.Function("allin", z3.ArraySort(SeqI, z3.BoolSort()), SeqSeqI, z3.BoolSort())   # every body of the tuple has its hash in H
+HG = z3.Const("HG!ghost", z3.ArraySort(SeqI, z3.BoolSort()))     # ghost: an arbitrary set of available hashes
+
+
+def unfold_allin(E, H, first, rest):
+    """definition of allin on a tuple given as first-body ++ rest (and on the empty tuple)"""
+    E.assume(mk_bool(allin(H, z3.Empty(SeqSeqI))))
+    E.assume(mk_bool(allin(H, z3.Unit(first)) == z3.Select(H, specfn.keccak(first))))
+    E.assume(mk_bool(allin(H, z3.Concat(z3.Unit(first), rest)) == z3.And(z3.Select(H, specfn.keccak(first)), allin(H, rest))))
+
+
 def gb_setup(E):
     from contracts.binary_c import bits
     E.ghost["adt_nodes"] = True
@@ -274,7 +285,20 @@ def gb_cases(E, ctx):
     def make_refused():
         E.assume(mk_bool(BM.blk(h, k) == PyVal.PNone))
         return ExcObj(ike, ("refused",))
-    return [Case("branch", when=mk_bool(brok(h, k)), returns=lambda: SSeq(bbr(h, k), "tuple", "bytes")),
+    def sufficient(r):
+        # the branch suffices to answer the key: in any store H that has the yielded nodes, the lookup of k below h
+        # finds every node it dereferences (ghost H arbitrary)
+        me = BM.unk(h)
+        for c, rest in ((P.child, BM.tail(k, z3.Length(P.path))), (P.left, BM.tail(k, 1)), (P.right, BM.tail(k, 1))):
+            unfold_allin(E, HG, me, bbr(c, rest))
+        BM.unfold_bavail(E, HG, h, k)
+        return [("the-branch-suffices-for-the-lookup", mk_bool(z3.Implies(allin(HG, bbr(h, k)), BM.bavail(HG, h, k))))]
+
+    def make_branch():
+        E.assume(mk_bool(z3.Implies(allin(HG, bbr(h, k)), BM.bavail(HG, h, k))))
+        return SSeq(bbr(h, k), "tuple", "bytes")
+    return [Case("branch", when=mk_bool(brok(h, k)), returns=(lambda: SSeq(bbr(h, k), "tuple", "bytes")) if unit_mode else None,
+                 ensures=sufficient if unit_mode else None, make=None if unit_mode else make_branch),
             Case("refused", when=mk_bool(z3.Not(brok(h, k))), raises=ike, exc=refused_clause,
                  make=None if unit_mode else make_refused),
             Case("missing-node", raises=KeyError)]
